@@ -12,7 +12,7 @@ use serde_json::json;
 
 #[derive(Serialize, Deserialize, Clone, Debug)]
 pub struct Case {
-    /// hist2 | hist3 | rec2 | rec3 | wild2 | wild3
+    /// hist2 | hist3 | rec2 | rec3 | wild2 | wild3 | turned2 | turned3
     pub kind: String,
     pub shape: usize,
     pub mode: usize,
@@ -24,6 +24,12 @@ pub struct Case {
 
 const DEG: f64 = std::f64::consts::PI / 180.0;
 
+/// Two observation vectors agree within 1e-9 (relative to their magnitude)
+fn close_vec(a: &[f64], b: &[f64]) -> bool {
+    a.len() == b.len() && a.iter().zip(b.iter()).all(|(x, y)| (x - y).abs() <= 1e-9 * (1.0 + x.abs().max(y.abs())))
+}
+
+
 pub fn curve_ref(shape: usize) -> Curve2 {
     let pts: Vec<(f64, f64)> = match shape {
         0 => vec![(0.0, 0.0), (5.0, 0.0), (5.0, 1.0), (0.0, 1.0)],
@@ -34,7 +40,7 @@ pub fn curve_ref(shape: usize) -> Curve2 {
     Curve2::from_points(&p, 1e-8, true).unwrap()
 }
 
-fn curve_samples(c: &Curve2, n: usize) -> Vec<Point2> {
+pub fn curve_samples(c: &Curve2, n: usize) -> Vec<Point2> {
     (0..n).map(|k| c.at_fraction((k as f64 + 0.37) / n as f64).unwrap().point()).collect()
 }
 
@@ -67,7 +73,7 @@ pub fn mesh_ref(shape: usize) -> Mesh {
     Mesh::new(v, f, false)
 }
 
-fn mesh_samples(m: &Mesh) -> Vec<Point3> {
+pub fn mesh_samples(m: &Mesh) -> Vec<Point3> {
     let v = m.vertices();
     let mut out = Vec::new();
     for t in m.faces() {
@@ -144,11 +150,11 @@ fn judge_hist2(case: &Case, l: &mut Local) {
                 l.check("2D problem observers return", "panic", false, mk, || e.clone());
             }
             Ok((got, want)) => {
-                let same = got.0 == want.0 && got.1 == want.1 && got.2 == want.2 && got.3 == want.3;
+                let same = close_vec(&got.0, &want.0) && close_vec(&got.1, &want.1) && close_vec(&got.2, &want.2) && (got.3.to_homogeneous() - want.3.to_homogeneous()).abs().max() <= 1e-9;
                 l.bucket("2D set_params history");
                 l.outcome(hash_of(&(h.len(), same, 2u8)));
                 l.check("2D problem: observations depend only on the last parameters set", "", same, mk, || format!("history {:?}: residuals {:?} vs fresh {:?}", h, got.1, want.1));
-                let honest = pts.iter().enumerate().all(|(i, p)| (residual2(&curve, &(got.3 * p)) - got.1[i]).abs() <= 1e-12);
+                let honest = pts.iter().enumerate().all(|(i, p)| (residual2(&curve, &(got.3 * p)) - got.1[i]).abs() <= 1e-9);
                 l.check("2D problem: residuals describe the points moved by the current transform", "", honest, mk, || format!("history {:?}", h));
             }
         }
@@ -178,7 +184,7 @@ fn judge_hist3(case: &Case, l: &mut Local) {
                 l.check("3D problem observers return", "panic", false, mk, || e.clone());
             }
             Ok((got, want)) => {
-                let same = got.0 == want.0 && got.1 == want.1 && got.2 == want.2 && got.3 == want.3;
+                let same = close_vec(&got.0, &want.0) && close_vec(&got.1, &want.1) && close_vec(&got.2, &want.2) && (got.3.to_matrix() - want.3.to_matrix()).abs().max() <= 1e-9;
                 l.bucket("3D set_params history");
                 l.outcome(hash_of(&(h.len(), same, case.mode)));
                 l.check("3D problem: observations depend only on the last parameters set", "", same, mk, || format!("mode {} history {:?}", case.mode, h));
@@ -223,11 +229,21 @@ fn judge_rec2(case: &Case, wild: bool, l: &mut Local) {
     let mk = || serde_json::to_value(case).unwrap();
     let curve = curve_ref(case.shape);
     let samples = curve_samples(&curve, [10, 24, 40][case.b % 3]);
-    let shift = if wild { Iso2::new(Vector2::new(0.3, -0.2), [40.0 * DEG, -40.0 * DEG, 25.0 * DEG][case.a % 3]) } else { shifts2()[case.a % shifts2().len()] };
-    let guess = [Iso2::identity(), Iso2::new(Vector2::new(0.05, -0.02), 2.0 * DEG)][case.guess % 2];
+    let turned = case.kind == "turned2";
+    let shift = if turned {
+        Iso2::new(Vector2::new(3.0, -2.0), [100.0 * DEG, 170.0 * DEG, -135.0 * DEG, 60.0 * DEG][case.a % 4])
+    } else if wild {
+        Iso2::new(Vector2::new(0.3, -0.2), [40.0 * DEG, -40.0 * DEG, 25.0 * DEG][case.a % 3])
+    } else {
+        shifts2()[case.a % shifts2().len()]
+    };
+    let small = [Iso2::identity(), Iso2::new(Vector2::new(0.05, -0.02), 2.0 * DEG), Iso2::new(Vector2::new(-0.04, 0.05), -5.0 * DEG)][case.guess % 3];
+    // for a turned part the guess is a small motion away from the exact answer (inside the basin)
+    let guess = if turned { small * shift.inverse() } else { small };
+    let wild = wild && !turned;
     let moved: Vec<Point2> = samples.iter().map(|p| shift * p).collect();
     l.eval();
-    l.bucket(if wild { "2D start outside the basin" } else { "2D displacement inside the basin" });
+    l.bucket(if turned { "2D turned part, guess near the answer" } else if wild { "2D start outside the basin" } else { "2D displacement inside the basin" });
     let r = match guarded(|| points_to_curve(&moved, &curve, &guess).map_err(|e| e.to_string())) {
         Ok(r) => r,
         Err(e) => {
@@ -266,11 +282,19 @@ fn judge_rec3(case: &Case, wild: bool, l: &mut Local) {
     } else {
         shifts3()[case.a % shifts3().len()]
     };
-    let guess = [Iso3::identity(), Iso3::new(Vector3::new(0.1, -0.1, 0.05), Vector3::new(0.01, 0.02, -0.01))][case.guess % 2];
+    let turned = case.kind == "turned3";
+    let shift = if turned {
+        Iso3::new(Vector3::new(3.0, -2.0, 5.0), [Vector3::z() * 2.5, Vector3::x() * -3.0, Vector3::new(1.0, 1.0, 1.0).normalize() * 2.2, Vector3::y() * 1.2][case.a % 4])
+    } else {
+        shift
+    };
+    let small = [Iso3::identity(), Iso3::new(Vector3::new(0.1, -0.1, 0.05), Vector3::new(0.01, 0.02, -0.01)), Iso3::new(Vector3::new(-0.05, 0.08, -0.1), Vector3::new(-0.02, 0.0, 0.03))][case.guess % 3];
+    let guess = if turned { small * shift.inverse() } else { small };
+    let wild = wild && !turned;
     let mode = || if case.mode == 0 { DistMode::ToPlane } else { DistMode::ToPoint };
     let moved: Vec<Point3> = samples.iter().map(|p| shift * p).collect();
     l.eval();
-    l.bucket(if wild { "3D start outside the basin" } else if case.mode == 0 { "3D plane mode inside the basin" } else { "3D point mode inside the basin" });
+    l.bucket(if turned { "3D turned part, guess near the answer" } else if wild { "3D start outside the basin" } else if case.mode == 0 { "3D plane mode inside the basin" } else { "3D point mode inside the basin" });
     let r = match guarded(|| points_to_mesh(&moved, &mesh, &guess, mode()).map_err(|e| e.to_string())) {
         Ok(r) => r,
         Err(e) => {
@@ -312,6 +336,8 @@ pub fn judge(case: &Case, l: &mut Local) {
         "wild2" => judge_rec2(case, true, l),
         "rec3" => judge_rec3(case, false, l),
         "wild3" => judge_rec3(case, true, l),
+        "turned2" => judge_rec2(case, true, l),
+        "turned3" => judge_rec3(case, true, l),
         _ => {}
     }
 }
@@ -342,6 +368,11 @@ pub fn cases(tier: Tier) -> Vec<Case> {
                 out.push(c("wild2", shape, 0, a, 1, guess));
             }
         }
+        for a in 0..4 {
+            for guess in 0..3 {
+                out.push(c("turned2", shape, 0, a, 1, guess));
+            }
+        }
     }
     let n3 = shifts3().len();
     for shape in 0..2 {
@@ -357,6 +388,11 @@ pub fn cases(tier: Tier) -> Vec<Case> {
             for a in 0..3 {
                 out.push(c("wild3", shape, mode, a, 0, 0));
             }
+            for a in 0..4 {
+                for guess in 0..3 {
+                    out.push(c("turned3", shape, mode, a, 0, guess));
+                }
+            }
         }
     }
     out
@@ -364,9 +400,9 @@ pub fn cases(tier: Tier) -> Vec<Case> {
 
 pub fn run(tier: Tier) -> i32 {
     let mut cx = Ctx::new("C07", tier, "model_checking");
-    cx.rule = "MC: every set_params history of length <= 3 over a 5-vector alphabet (start, two small, two large moves) of the private 2D points-to-curve problem (3 reference curves x 2 initial guesses) and the 3D points-to-mesh problem (2 meshes x 2 distance modes), each compared with a fresh problem whose history is just the last element, residuals recomputed by brute force. EX: recovery of every displacement of the stated basin (2D: {-.05,0,.05}^2 x {0,+-3,+-10 deg}; 3D: {-.1,0,.1}^3 x {0, +-2 deg about x, y, z, (1,1,1)}; at most 5% of the smallest feature) x 2 initial guesses x sample densities x both DistModes on rectangle / L-shape / pentagon and box / L-prism; out-of-basin starts (25-40 deg) judged for residual honesty only. distinct = distinct cases".into();
+    cx.rule = "MC: every set_params history of length <= 3 over a 5-vector alphabet (start, two small, two large moves) of the private 2D points-to-curve problem (3 reference curves x 2 initial guesses) and the 3D points-to-mesh problem (2 meshes x 2 distance modes), each compared with a fresh problem whose history is just the last element, residuals recomputed by brute force. EX: recovery of every displacement of the stated basin (2D: {-.05,0,.05}^2 x {0,+-3,+-10 deg}; 3D: {-.1,0,.1}^3 x {0, +-2 deg about x, y, z, (1,1,1)}; at most 5% of the smallest feature) x 2 initial guesses x sample densities x both DistModes on rectangle / L-shape / pentagon and box / L-prism; out-of-basin starts (25-40 deg) judged for residual honesty only; 'turned parts': displacements of 60-170 deg (2D) / 1.2-3 rad (3D) with translations, started from a guess within the basin of the exact answer, must be recovered. distinct = distinct cases".into();
     cx.bounds = json!({"history_len": 3, "alphabet": 5, "shifts2": shifts2().len(), "shifts3": shifts3().len(), "shifts3_subsampling": tier.pick(3, 1)});
-    cx.require(&["2D set_params history", "3D set_params history", "2D displacement inside the basin", "2D start outside the basin", "3D plane mode inside the basin", "3D point mode inside the basin", "3D start outside the basin"]);
+    cx.require(&["2D set_params history", "3D set_params history", "2D displacement inside the basin", "2D start outside the basin", "3D plane mode inside the basin", "3D point mode inside the basin", "3D start outside the basin", "2D turned part, guess near the answer", "3D turned part, guess near the answer"]);
     cx.assume("basin: translations up to 5% of the smallest feature, rotations up to 10 deg (2D) / 2 deg (3D), guesses within 2 deg / 0.1; recovery judged at 1e-6 on matrix entries; plane-mode residuals may use any minimising face");
     let cs = cases(tier);
     let l = sweep(&cs, judge);
